@@ -2,7 +2,12 @@ package main
 
 import (
 	"encoding/json"
+	"fmt"
 	"path/filepath"
+	"sync/atomic"
+	"time"
+
+	"github.com/ozontech/seq-db/verifhook"
 
 	"github.com/ozontech/seq-db/frac"
 
@@ -25,6 +30,8 @@ type fracObs struct {
 
 type extraReq struct {
 	Limit uint64 `json:"limit,omitempty"`
+	Park  string `json:"park,omitempty"` // c15.sealrace: schedule point of proxyFrac.Seal at which the seal is parked
+	Hold  bool   `json:"hold,omitempty"` // c15.sealrace: keep Release back (at seal.swapped) until the retention pass has finished
 }
 
 type extraResp struct {
@@ -66,6 +73,66 @@ func registerChildOps() {
 		}
 		c.FM.VerifC15SetTotalSize(e.Limit)
 		c.FM.VerifC15ShrinkSizes()
+		return childInfos(c), nil
+	})
+	// retention during a seal: rotate, seal the previous active fraction in the background (as the
+	// maintenance step does), park the seal at a schedule point, run the real retention pass with a
+	// limit that evicts that fraction, let the seal go on, wait for both
+	storectl.Register("c15.sealrace", func(c *storectl.Child, r storectl.Req) (storectl.Resp, error) {
+		var e extraReq
+		if err := json.Unmarshal(r.Extra, &e); err != nil {
+			return storectl.Resp{}, err
+		}
+		parked, release := make(chan struct{}), make(chan struct{})
+		release2 := make(chan struct{})
+		var stage atomic.Int32
+		verifhook.Set(func(name string) { // names of other properties' points are ignored
+			switch {
+			case name == e.Park && stage.CompareAndSwap(0, 1):
+				close(parked)
+				<-release
+			case e.Hold && name == "seal.swapped" && e.Park != "seal.swapped" && stage.CompareAndSwap(1, 2):
+				<-release2
+			}
+		})
+		defer verifhook.Set(nil)
+		c.FM.WaitIdle()
+		done := c.FM.VerifC15RotateSealAsync()
+		select {
+		case <-parked:
+		case <-done:
+			return storectl.Resp{}, fmt.Errorf("seal finished without reaching %s", e.Park)
+		case <-time.After(60 * time.Second):
+			return storectl.Resp{}, fmt.Errorf("seal did not reach %s", e.Park)
+		}
+		fr := c.FM.GetAllFracs()
+		var limit uint64
+		if len(fr) > 0 {
+			limit = fr[len(fr)-1].Info().FullSize() // only the new active fraction may stay
+		}
+		c.FM.VerifC15SetTotalSize(limit)
+		shrunk := make(chan struct{})
+		go func() {
+			defer close(shrunk)
+			c.FM.VerifC15ShrinkSizes()
+		}()
+		// give the pass time to reach the fraction: it blocks in proxyFrac.Suicide while the seal is parked
+		// before the swap, and finishes on its own when the seal is parked after it
+		select {
+		case <-shrunk:
+		case <-time.After(40 * time.Millisecond):
+		}
+		close(release)
+		if e.Hold {
+			select {
+			case <-shrunk:
+			case <-time.After(60 * time.Second):
+			}
+		}
+		close(release2)
+		<-done
+		<-shrunk
+		c.FM.VerifC15SetTotalSize(1 << 42)
 		return childInfos(c), nil
 	})
 	storectl.Register("c15.synccache", func(c *storectl.Child, r storectl.Req) (storectl.Resp, error) {
